@@ -26,6 +26,52 @@ K4 = "nullable-pointer-optional-switch-with-default-panics"
 K5 = "switch-argument-on-pointer-payload-panics"
 KMAP = {"K1": K1, "K3": K3, "K4": K4, "K5": K5}
 
+# Which of the candidate repairs K1..K5 are present in the tree ("10100" = K1 and K3): detected by probing the
+# witness of each finding once at the start of a run (or forced with VERIF_C11_FIXED=K1,K3 / =none); selects the
+# variant of the model (Model/SwitchFixed.v) the tree is compared with.  A finding whose repair is present is no
+# longer a known class: the same failure would then be reported as a VIOLATION.
+FX = "00000"
+
+PROBES_FRONT = {
+    0: "D :: distinct ?i32;\nf :: (x: D) {\n    switch v in x {\n        i32 => {},\n        nil => {},\n    }\n}\n",
+    1: "E :: enum { A | 255, B };\n",
+    2: "DN :: distinct nil;\nf :: (x: ?i32) {\n    switch v in x {\n        i32 => {},\n        DN => {},\n    }\n}\n",
+}
+PROBES_CAPY = {
+    3: "f :: (p: ?^i32) {\n    switch p {\n        nil => {},\n        _ => {},\n    }\n}\nmain :: () {\n    f(nil);\n}\n",
+    4: "E :: enum { A, G: ^i32 };\nf :: (e: E) {\n    switch v in e {\n        .A => {},\n        .G => {},\n    }\n}\n"
+       "main :: () {\n    f(E.A);\n}\n",
+}
+
+
+def detect_fixes(har, capy):
+    """probe the tree for each repair; returns (flags string, details)."""
+    forced = os.environ.get("VERIF_C11_FIXED")
+    if forced is not None:
+        names = [x.strip().upper() for x in forced.split(",")]
+        return "".join("1" if "K%d" % (i + 1) in names else "0" for i in range(5)), {"forced": forced}
+    flags = ["0"] * 5
+    det = {}
+    if har:
+        outs = C.run_lines([har], [PROBES_FRONT[i].encode().hex() for i in (0, 1, 2)], case_timeout=30)
+        if len(outs) == 3:
+            det["K1"] = outs[0][:200]
+            det["K2"] = outs[1][:200]
+            det["K3"] = outs[2][:200]
+            if "PANIC@" not in outs[0] and not outs[0].startswith("!") and " T:" not in outs[0]:
+                flags[0] = "1"
+            if "T:IntTooBigForType@" in outs[1]:
+                flags[1] = "1"
+            if "PANIC@" not in outs[2] and not outs[2].startswith("!") and "T:NotAVariantOfSumType@" in outs[2]:
+                flags[2] = "1"
+    if capy:
+        res = C.parallel_map(build_and_run, [(capy, PROBES_CAPY[3]), (capy, PROBES_CAPY[4])])
+        for k, r in zip((3, 4), res):
+            det["K%d" % (k + 1)] = "build failed: " + r.get("output", "")[:200] if r.get("build_failed") else "builds and runs rc=%s" % r.get("rc")
+            if not r.get("build_failed") and r.get("rc") == 0:
+                flags[k] = "1"
+    return "".join(flags), det
+
 # ----------------------------------------------------------------------------- type universe
 # name -> (capy type expr, atom id, repr, Debug prefix of hir Ty)
 TY = {
@@ -236,6 +282,9 @@ def decls(case, idx):
             vs.append(s)
         out.append("E%d :: enum { %s };" % (idx, ", ".join(vs)))
     t = ty_expr(st, idx)
+    if case["wraps"] and st["kind"] != "enum":
+        out.append("T%d :: %s;" % (idx, t))        # a name for the sum type (needed to cast values into it)
+        t = "T%d" % idx
     for k, w in enumerate(case["wraps"]):
         if w == "d":
             out.append("W%d_%d :: distinct %s;" % (idx, k, t))
@@ -309,7 +358,7 @@ def vty_tok(t):
 
 def model_line(case):
     st = case["sum"]
-    toks = ["S", str(len(case["wraps"]))]
+    toks = ["S", "fx=" + FX, str(len(case["wraps"]))]
     for k, w in enumerate(case["wraps"]):
         toks.append("%s%d" % (w, 50 + k))
     if st["kind"] == "enum":
@@ -462,12 +511,18 @@ def construct(case, idx, j):
     st = case["sum"]
     m = members(st)[j]
     if st["kind"] == "enum":
-        if m is None:
-            return "E%d.%s" % (idx, "ABCDEF"[j])
-        return "E%d.%s.(%s)" % (idx, "ABCDEF"[j], value(m, j)[0])
-    if m == "nil":
-        return "nil"
-    return value(m, j)[0]
+        e = "E%d.%s" % (idx, "ABCDEF"[j]) if m is None else "E%d.%s.(%s)" % (idx, "ABCDEF"[j], value(m, j)[0])
+        inner = "E%d.(%s)" % (idx, e)
+    else:
+        e = "nil" if m == "nil" else value(m, j)[0]
+        inner = "T%d.(%s)" % (idx, e)
+    if not case["wraps"]:
+        return e
+    # value of the wrapped type: cast into the sum type, then into every wrapper
+    x = inner
+    for k, w in enumerate(case["wraps"]):
+        x = ("W%d_%d.(%s)" if w == "d" else "W%d_%d.W.(%s)") % (idx, k, x)
+    return x
 
 
 def expected_output(case, outcome, j, ref_arg):
@@ -579,6 +634,12 @@ def run(tier, seed):
     hist = {"sum_kind": {}, "members": {}, "arms": {}, "frontend_outcome": {}, "e2e_outcome": {},
             "known_class": {}}
     import time
+    global FX
+    FX, det = detect_fixes(har, capy)
+    v.coverage["repairs_detected_K1_to_K5"] = FX
+    v.coverage["repair_probes"] = det
+    v.coverage["model_in_force"] = ("Model/Switch.v (faithful model, no repair present)" if FX == "00000" else
+                                    "Model/SwitchFixed.v with fixes %s (= Model/Switch.v for the repairs not present)" % FX)
     t0 = time.time()
     if drv and har:
         stream_discr(fl, drv, har, tier, hist)
@@ -633,7 +694,7 @@ def stream_discr(fl, drv, har, tier, hist):
         vs = ", ".join("ABCDEFGHIJ"[i] + ("" if m is None else " | %d" % m) for i, m in enumerate(ms))
         srcs.append("E :: enum { %s };\ng :: (x: E) {\n    switch x {}\n}\n" % vs)
     impl = C.run_lines([har], [s.encode().hex() for s in srcs], case_timeout=20)
-    model = C.run_lines([drv], ["D " + " ".join("-" if m is None else str(m) for m in ms) for ms in cases], indexed=False)
+    model = C.run_lines([drv], ["D fx=" + FX + " " + " ".join("-" if m is None else str(m) for m in ms) for ms in cases], indexed=False)
     if len(impl) != len(cases) or len(model) != len(cases):
         fl.broken.append({"what": "discr stream: tool output length mismatch", "impl": len(impl), "model": len(model)})
         return
@@ -644,17 +705,20 @@ def stream_discr(fl, drv, har, tier, hist):
         toks = out.split(" ")
         got = []
         ndup = 0
+        nbig = 0
         for t in toks:
             if t.startswith("T:SwitchDoesNotCoverVariant@"):
                 ds = re.findall(r"discriminant:(\d+)", t)
                 got.append(int(ds[-1]) if ds else -1)
             elif t.startswith("T:DiscriminantUsedAlready@"):
                 ndup += 1
+            elif t.startswith("T:IntTooBigForType@"):
+                nbig += 1
         panic = next((t for t in toks if t.startswith("PANIC@")), None)
-        impl_c = "PANIC" if panic else "OK %s ; dups %d" % (" ".join(map(str, got)), ndup)
-        mm = re.match(r"OK (.*) ; dups(.*)$", mo)
-        model_c = ("OK %s ; dups %d" % (mm.group(1).strip(), len(mm.group(2).split()))) if mm else \
-            ("PANIC" if mo.startswith("CRASH") else mo)
+        impl_c = "PANIC" if panic else "OK %s ; dups %d ; big %d" % (" ".join(map(str, got)), ndup, nbig)
+        mm = re.match(r"OK (.*) ; dups(.*) ; big(.*)$", mo)
+        model_c = ("OK %s ; dups %d ; big %d" % (mm.group(1).strip(), len(mm.group(2).split()), len(mm.group(3).split()))) \
+            if mm else ("PANIC" if mo.startswith("CRASH") else mo)
         payload = {"key": "discr:" + C.sha(src), "stream": "discr", "manual_discriminants": ms, "source": src,
                    "implementation": impl_c, "model": model_c}
         if any(m is not None for m in ms):
@@ -674,7 +738,8 @@ def stream_discr(fl, drv, har, tier, hist):
                 seen.add(m)
                 if g != m:
                     v.failing("enum-manual-discriminant-not-kept", dict(payload, spec="manual value kept"))
-        if any(g > 255 for g in got):
+        if any(g > 255 for g in got) and nbig == 0:
+            # (a declaration that is reported as too big is rejected: nothing of it reaches the tag)
             # narrow syntactic class: a manual discriminant within (number of variants) of 256
             cls = K2 if any(m is not None and m + len(ms) > 255 for m in ms) else "enum-discriminant-exceeds-u8:unexplained"
             v.failing(cls, dict(payload, spec="every discriminant < 256 (the tag is loaded as i8)"))
@@ -725,7 +790,10 @@ def stream_frontend(fl, drv, har, tier, hist):
         if c["sum"]["kind"] == "enum":
             ms = [x for _, x in c["sum"]["variants"] if x is not None]
             dup_manual = len(ms) != len(set(ms))
-        other = [o for o in other if not (o == "DiscriminantUsedAlready" and dup_manual)]
+        big_decl = m.get("big", "0") != "0"
+        other = [o for o in other if not (o == "DiscriminantUsedAlready" and dup_manual)
+                 and not (o == "IntTooBigForType" and big_decl)]
+        dup_manual = dup_manual or big_decl      # the declaration itself is rejected
         mcheck = "CRASH" if m["check"].startswith("CRASH") else m["check"]
         key = C.sha(src)
         if is_nontrivial(c):
@@ -768,7 +836,7 @@ def stream_e2e(fl, drv, capy, tier, hist):
     r = fl.rng.fork("e2e")
     n = 640 if tier == "quick" else 8000
     per = 40
-    cases = [c for c in corpus_cases() if not c["wraps"]]
+    cases = list(corpus_cases())
     # hand-picked shapes that must always be present
     cases.append({"sum": {"kind": "enum", "variants": [(None, 255), (None, 0), ("i32", None)]}, "wraps": [],
                   "arms": [("S", 1), ("D",)], "with_arg": True})
@@ -779,7 +847,13 @@ def stream_e2e(fl, drv, capy, tier, hist):
     cases.append({"sum": {"kind": "enum", "variants": [(None, None), ("ptr", None)]}, "wraps": [],
                   "arms": [("S", 0), ("S", 1)], "with_arg": True})
     for _ in range(n):
-        cases.append(gen_case(r, clean=True))
+        c = gen_case(r, clean=True)
+        if FX[0] == "1" and r.chance(1, 4):
+            # K1 repaired: switches over distinct / variant wrappers are accepted and must dispatch
+            c["wraps"] = [r.choice(["d", "d", "v"])] + (["d"] if r.chance(1, 4) else [])
+        cases.append(c)
+    if FX[0] != "1":
+        cases = [c for c in cases if not c["wraps"]]
     model = C.run_lines([drv], [model_line(c) for c in cases], indexed=False)
     if len(model) != len(cases):
         fl.broken.append({"what": "e2e stream: model output length mismatch"})
@@ -797,6 +871,8 @@ def stream_e2e(fl, drv, capy, tier, hist):
             ms = [x for _, x in c["sum"]["variants"] if x is not None]
             if len(ms) != len(set(ms)):
                 continue      # DiscriminantUsedAlready: the declaration itself is rejected
+        if m.get("big", "0") != "0":
+            continue          # too-big discriminant reported (K2 repaired): the declaration is rejected
         if m["discr"] != "-" and any(int(x) > 255 for x in m["discr"].split(",")):
             c["_noref"] = True
         (crashy if m["comp"].startswith("CRASH") else good).append((c, m))
